@@ -77,6 +77,7 @@ type Exec struct {
 	depth     int
 	stack     []*ssa.Function
 	ghost     map[string]Value // ghost bindings for contract application
+	rootContract *Contract   // contract of the function being verified (for dyncall effects)
 	ifaceMethod *types.Func    // method being called through an interface-level contract (binds self and parameter names)
 	specs     map[*ssa.Function]*specDef
 	specMode  int
